@@ -43,6 +43,11 @@ def build_pool(S, rng, n):
         pool.append(("IBAN", S.IBAN(t)))
         if i % 3 == 0:
             pool.append(("str", t))
+        if i % 7 == 0:
+            # plain strings that are NOT compact: formatted, lower-case, padded - they must compare as strings
+            pool.append(("str", " ".join(t[j : j + 4] for j in range(0, len(t), 4))))
+            pool.append(("str", t.lower()))
+            pool.append(("str", " " + t))
         if i % 4 == 0:
             pool.append(("BBAN", S.BBAN(cc, t[4:])))
             other = rng.choice(cs)
@@ -57,6 +62,8 @@ def build_pool(S, rng, n):
             pool.append(("BIC", S.BIC(b)))
             if i % 6 == 0:
                 pool.append(("str", b))
+                pool.append(("str", b.lower()))
+                pool.append(("str", " ".join([b[0:4], b[4:6], b[6:8]] + ([b[8:]] if len(b) == 11 else []))))
                 pool.append(("BIC_unvalidated", S.BIC(b[:7], allow_invalid=True)))
     for t in ["", "XX", "XX00", "DE", "de89", "ZZ99ZZZZ", "12345678", "GENODEM1GLS", "é", "DE89 3704"]:
         pool.append(("IBAN_unvalidated", S.IBAN(t, allow_invalid=True)))
